@@ -95,11 +95,11 @@ pub open spec fn arg_link(op: OpcodeKind, arg_bytes: Option<&[u8]>, a: RefArg) -
 
 impl State {
 //@fn src/state.rs State::reset
-//@props C08 C01 C09
+//@props C08 C01 C05 C09
 //@contract
     ensures
-        !final(self).proto_emitted,
-        final(self).memo@ == Map::<usize, StackObjectRef>::empty(),
+        !final(self).proto_emitted, // @C08 @C05
+        final(self).memo@ == Map::<usize, StackObjectRef>::empty(), // @C08
         final(self).stack.view() == Seq::<Kind>::empty(),
         final(self).version == old(self).version,
 //@endfn
@@ -728,68 +728,134 @@ impl Generator {
     }
     pub open spec fn emit_pre(&self, op: OpcodeKind, r: RefState) -> bool {
         &&& self.rel(r) && contig(r)
-        &&& !self.unsafe_mutations
+        &&& !self.unsafe_mutations && self.mutators_consistent()
         &&& self.guard_ok(op, r)
         &&& ref_proto(op) <= ver_num(self.state.version)
         &&& r.memo_len < 0x1_0000_0000
         &&& ver_num(self.state.version) >= 2 ==> self.state.proto_emitted
     }
 
-//@fn src/generator/mutation.rs Generator::mutate_memo_index
-//@ret r
-//@assume
-//@contract
-//@endfn
+    /// every registered mutator was created with the generator's own unsafe flag (as the CLI and the
+    /// Python bindings do: MutatorKind::create(unsafe_mutations)); an explicit assumption of the safe-mode claims
+    pub open spec fn mutators_consistent(&self) -> bool {
+        forall|i: int| 0 <= i < vf_mutators_len_spec(&self.mutators) ==>
+            (#[trigger] vf_mutator_spec(&self.mutators, i)).unsafe_mode() == self.unsafe_mutations
+    }
 
+//@define MUTATE_SUBSTS
+//@rewrite R18
+//@subst self.mutators.is_empty() => vf_mutators_is_empty(&self.mutators)
+//@enddef
+
+// first-applicable-mutator-wins loops of src/generator/mutation.rs (the registered mutators are an
+// opaque list with the trait-level contract of contracts/shim.rs)
 //@fn src/generator/mutation.rs Generator::mutate_int
 //@ret r
-//@assume
+//@props C04 C09 C15
+//@use MUTATE_SUBSTS
 //@contract
-//@endfn
-
-/// first-applicable-mutator-wins over the registered built-in mutators: whatever fires, the length
-/// stays within what string-length / character can produce (proved per mutator in unit mutv)
-//@fn src/generator/mutation.rs Generator::mutate_bytes
-//@ret r
-//@assume
-//@contract
-    ensures r@.len() <= 2 * value@.len() + 9,
-//@endfn
-
-/// first-applicable-mutator-wins: length bound and printable ASCII are preserved (proved per mutator in unit mutv)
-//@fn src/generator/mutation.rs Generator::mutate_string
-//@ret r
-//@assume
-//@contract
-    ensures r@.len() <= 2 * value@.len() + 9, printable(value@) ==> printable(r@),
+//@loop 1
+            invariant vf_k <= vf_mutators_len_spec(&self.mutators),
+            decreases vf_mutators_len_spec(&self.mutators) - vf_k,
 //@endfn
 
 //@fn src/generator/mutation.rs Generator::mutate_float
 //@ret r
-//@assume
+//@props C04 C09 C15
+//@use MUTATE_SUBSTS
 //@contract
+//@loop 1
+            invariant vf_k <= vf_mutators_len_spec(&self.mutators),
+            decreases vf_mutators_len_spec(&self.mutators) - vf_k,
 //@endfn
 
-#[verifier::external_body]
-pub fn create_snapshot(&self) -> (r: VfSnapshot)
-    ensures r.output_len() == self.output@.len()
-{ unimplemented!() }
+//@fn src/generator/mutation.rs Generator::mutate_memo_index
+//@ret r
+//@props C02 C09 C15
+//@use MUTATE_SUBSTS
+//@contract
+//@loop 1
+            invariant vf_k <= vf_mutators_len_spec(&self.mutators),
+            decreases vf_mutators_len_spec(&self.mutators) - vf_k,
+//@endfn
 
-/// post_process_emission: in safe mode no registered built-in mutator rewrites emitted bytes
-/// (TypeConfusionMutator::post_process returns false unless unsafe; all others use the default
-/// method) -- proved by the Kani harnesses u8_typeconfusion_* / u8_not_applicable_*.
-#[verifier::external_body]
-pub fn post_process_emission(&mut self, snapshot: VfSnapshot, source: &mut GenerationSource)
-    requires snapshot.output_len() <= old(self).output@.len()
+//@fn src/generator/mutation.rs Generator::mutate_string
+//@ret r
+//@props C04 C11 C17 C09 C15
+//@use MUTATE_SUBSTS
+//@subst result.clone() => vf_string_clone(&result)
+//@contract
     ensures
-        !old(self).unsafe_mutations ==> *final(self) == *old(self),
-        // unsafe mode: only a type-confusion rewrite of the current emission can happen (contract proved in unit mutv:
-        // TypeConfusionMutator::post_process; every other built-in mutator keeps the default no-op)
+        // at most ONE mutation is applied, so the per-mutator bounds carry over
+        r@.len() <= 2 * value@.len() + 9, // @C11 @C04
+        printable(value@) ==> printable(r@), // @C04 @C17
+//@loop 1
+            invariant_except_break
+                result@ == value@,
+            invariant
+                vf_k <= vf_mutators_len_spec(&self.mutators),
+            ensures
+                result@.len() <= 2 * value@.len() + 9,
+                printable(value@) ==> printable(result@),
+            decreases vf_mutators_len_spec(&self.mutators) - vf_k,
+//@endfn
+
+//@fn src/generator/mutation.rs Generator::mutate_bytes
+//@ret r
+//@props C04 C11 C09 C15
+//@use MUTATE_SUBSTS
+//@subst result.clone() => vf_vec_clone(&result)
+//@contract
+    ensures
+        r@.len() <= 2 * value@.len() + 9, // @C11 @C04
+//@loop 1
+            invariant_except_break
+                result@ == value@,
+            invariant
+                vf_k <= vf_mutators_len_spec(&self.mutators),
+            ensures
+                result@.len() <= 2 * value@.len() + 9,
+            decreases vf_mutators_len_spec(&self.mutators) - vf_k,
+//@endfn
+
+//@fn src/generator/mutation.rs Generator::create_snapshot
+//@ret r
+//@props C04 C06 C09
+//@contract
+    ensures
+        r.output_len == self.output@.len(), // @C06
+        r.stack_depth == self.view().len(),
+//@endfn
+
+//@fn src/generator/mutation.rs Generator::post_process_emission
+//@props C01 C04 C06 C10 C15 C09
+//@use MUTATE_SUBSTS
+//@subst self.state.stack.inner[snapshot.stack_depth..].to_vec() => vf_stack_tail(&self.state.stack.inner, snapshot.stack_depth)
+//@subst self.output[snapshot.output_len..].to_vec() => vf_bytes_tail(&self.output, snapshot.output_len)
+//@contract
+    requires
+        snapshot.output_len <= old(self).output@.len(),
+    ensures
+        // safe mode (mutators built with the generator's flag): nothing is rewritten
+        !old(self).unsafe_mutations && old(self).mutators_consistent() ==> final(self).output@ == old(self).output@, // @C01 @C15
+        // any mode: the simulation is untouched, and the output is unchanged or the current emission was
+        // replaced by one complete value-pushing opcode; bytes before the emission never change
         final(self).state == old(self).state && final(self).same_config(old(self)),
         final(self).output@ == old(self).output@
-            || exists|rep: Seq<u8>, k: int| final(self).output@ == old(self).output@.take(snapshot.output_len() as int) + rep
-                && #[trigger] replacement_ok(rep, k),
-{ unimplemented!() }
+            || exists|rep: Seq<u8>, k: int| final(self).output@ == old(self).output@.take(snapshot.output_len as int) + rep
+                && #[trigger] replacement_ok(rep, k), // @C04 @C06 @C10
+//@loop 2
+            invariant
+                vf_k <= vf_mutators_len_spec(&self.mutators),
+                snapshot.output_len <= self.output@.len(),
+                snapshot.output_len <= old(self).output@.len(),
+                self.state == old(self).state && self.same_config(old(self)),
+                !old(self).unsafe_mutations && old(self).mutators_consistent() ==> self.output@ == old(self).output@,
+                self.output@ == old(self).output@
+                    || exists|rep: Seq<u8>, k: int| self.output@ == old(self).output@.take(snapshot.output_len as int) + rep
+                        && #[trigger] replacement_ok(rep, k),
+            decreases vf_mutators_len_spec(&self.mutators) - vf_k,
+//@endfn
 
 #[verifier::external_body]
 pub fn get_random_module(&self, source: &mut GenerationSource) -> (r: Result<VfText, VfError>)
@@ -823,7 +889,7 @@ pub fn get_random_module(&self, source: &mut GenerationSource) -> (r: Result<VfT
         proof {
             let chunk = self.output@.subrange(old(self).output@.len() as int, self.output@.len() as int);
             assert(self.output@ =~= old(self).output@ + chunk);
-            assert(chunk.len() >= 1 && chunk[0] == ref_code(opcode) as u8); // @C11 @C04
+            assert(chunk.len() >= 1 && chunk[0] == ref_code(opcode) as u8); // @C11 @C04 @C12 @C17
             assert(enc_ok(opcode, chunk)); // @C04
             assert(self.rel(ref_step(opcode, RefArg { idx: 0 }, r))); // @C17
             assert(self.emit_post(old(self), r, opcode, opcode, RefArg { idx: 0 }, chunk));
@@ -861,7 +927,7 @@ pub fn get_random_module(&self, source: &mut GenerationSource) -> (r: Result<VfT
         proof {
             let chunk = self.output@.subrange(old(self).output@.len() as int, self.output@.len() as int);
             assert(self.output@ =~= old(self).output@ + chunk);
-            assert(chunk.len() >= 1 && chunk[0] == ref_code(opcode) as u8); // @C11 @C04
+            assert(chunk.len() >= 1 && chunk[0] == ref_code(opcode) as u8); // @C11 @C04 @C12 @C17
             if opcode == OpcodeKind::String || opcode == OpcodeKind::Unicode { assert(chunk.subrange(1, chunk.len() as int) =~= gtext); }
             assert(enc_ok(opcode, chunk)); // @C04
             assert(self.rel(ref_step(opcode, RefArg { idx: 0 }, r))); // @C17
@@ -947,6 +1013,16 @@ pub fn get_random_module(&self, source: &mut GenerationSource) -> (r: Result<VfT
         }
 //@endfn
 
+//@define DELEG_END
+//@before 1 self.post_process_emission(
+        let ghost g_mid = *self;
+//@before 1 Ok(())
+        proof {
+            let chunk = choose|chunk: Seq<u8>| g_mid.emit_post(old(self), r, opcode, opcode, RefArg { idx: 0 }, chunk);
+            assert(self.emit_post(old(self), r, opcode, opcode, RefArg { idx: 0 }, chunk));
+        }
+//@enddef
+
 //@define EMIT_CONTRACT
 //@contract
     requires
@@ -966,9 +1042,11 @@ pub fn get_random_module(&self, source: &mut GenerationSource) -> (r: Result<VfT
 //@use EMIT_CONTRACT
 //@arm Int | Long | Long1 | Long4 | BinInt | BinInt1 | BinInt2
 //@rewrite R14 emit_int self.emit_int($ARGS, Ghost(r))
+//@before 1 self.post_process_emission(
+        let ghost g_mid = *self;
 //@before 1 Ok(())
         proof {
-            let (op2, chunk) = choose|op2: OpcodeKind, chunk: Seq<u8>| Generator::int_like(op2) && self.emit_post(old(self), r, op2, op2, RefArg { idx: 0 }, chunk);
+            let (op2, chunk) = choose|op2: OpcodeKind, chunk: Seq<u8>| Generator::int_like(op2) && g_mid.emit_post(old(self), r, op2, op2, RefArg { idx: 0 }, chunk);
             assert(self.emit_post(old(self), r, opcode, op2, RefArg { idx: 0 }, chunk));
         }
 //@arm Float
@@ -983,7 +1061,7 @@ pub fn get_random_module(&self, source: &mut GenerationSource) -> (r: Result<VfT
             assert(self.output@ =~= old(self).output@ + chunk);
             assert(chunk.subrange(1, chunk.len() as int) =~= gtext);
             assert(enc_ok(opcode, chunk)); // @C04
-            assert(chunk.len() >= 1 && chunk[0] == ref_code(opcode) as u8); // @C04 @C11
+            assert(chunk.len() >= 1 && chunk[0] == ref_code(opcode) as u8); // @C04 @C11 @C12 @C17
             assert(self.rel(ref_step(opcode, RefArg { idx: 0 }, r))); // @C17
             assert(self.emit_post(old(self), r, opcode, opcode, RefArg { idx: 0 }, chunk));
         }
@@ -994,16 +1072,25 @@ pub fn get_random_module(&self, source: &mut GenerationSource) -> (r: Result<VfT
         proof {
             let chunk = self.output@.subrange(old(self).output@.len() as int, self.output@.len() as int);
             assert(self.output@ =~= old(self).output@ + chunk);
-            assert(chunk.len() >= 1 && chunk[0] == ref_code(opcode) as u8); // @C04 @C11
+            assert(chunk.len() >= 1 && chunk[0] == ref_code(opcode) as u8); // @C04 @C11 @C12 @C17
             assert(self.rel(ref_step(opcode, RefArg { idx: 0 }, r))); // @C17
             assert(self.emit_post(old(self), r, opcode, opcode, RefArg { idx: 0 }, chunk));
         }
 //@arm String | Unicode | ShortBinUnicode | BinUnicode | BinUnicode8
 //@rewrite R14 emit_string self.emit_string($ARGS, Ghost(r))
+//@use DELEG_END
 //@arm BinString | ShortBinString | ShortBinBytes | BinBytes | BinBytes8 | ByteArray8
 //@rewrite R14 emit_bytes self.emit_bytes($ARGS, Ghost(r))
+//@use DELEG_END
 //@arm Global
 //@rewrite R14 emit_global self.emit_global($ARGS, Ghost(r))
+//@before 1 self.post_process_emission(
+        let ghost g_mid = *self;
+//@before 1 Ok(())
+        proof {
+            let chunk = choose|chunk: Seq<u8>| g_mid.emit_post(old(self), r, OpcodeKind::Global, OpcodeKind::Global, RefArg { idx: 0 }, chunk);
+            assert(self.emit_post(old(self), r, opcode, opcode, RefArg { idx: 0 }, chunk));
+        }
 //@arm Put
 //@subst format!("{}\n", index) => vf_fmt_usize_nl(index)
 //@rewrite R14 process_stack_ops self.process_stack_ops($ARGS, Ghost(r), Ghost(RefArg { idx: index as int }))
@@ -1019,7 +1106,7 @@ pub fn get_random_module(&self, source: &mut GenerationSource) -> (r: Result<VfT
             assert(self.output@ =~= old(self).output@ + chunk);
             assert(chunk.subrange(1, chunk.len() as int) =~= gtext);
             assert(enc_ok(opcode, chunk)); // @C04
-            assert(chunk.len() >= 1 && chunk[0] == ref_code(opcode) as u8); // @C04 @C11
+            assert(chunk.len() >= 1 && chunk[0] == ref_code(opcode) as u8); // @C04 @C11 @C12 @C17
             assert(ref_pre(opcode, ga, r)); // @C02 @C01
             assert(self.rel(ref_step(opcode, ga, r))); // @C17 @C02
             assert(self.emit_post(old(self), r, opcode, opcode, ga, chunk));
@@ -1033,7 +1120,7 @@ pub fn get_random_module(&self, source: &mut GenerationSource) -> (r: Result<VfT
             let ga = RefArg { idx: old(self).state.memo@.len() as int };
             let chunk = self.output@.subrange(old(self).output@.len() as int, self.output@.len() as int);
             assert(self.output@ =~= old(self).output@ + chunk);
-            assert(chunk.len() >= 1 && chunk[0] == ref_code(opcode) as u8); // @C04 @C11
+            assert(chunk.len() >= 1 && chunk[0] == ref_code(opcode) as u8); // @C04 @C11 @C12 @C17
             assert(ref_pre(opcode, ga, r)); // @C02 @C01
             assert(self.rel(ref_step(opcode, ga, r))); // @C17 @C02
             assert(self.emit_post(old(self), r, opcode, opcode, ga, chunk));
@@ -1048,7 +1135,7 @@ pub fn get_random_module(&self, source: &mut GenerationSource) -> (r: Result<VfT
             let ga = RefArg { idx: old(self).state.memo@.len() as int };
             let chunk = self.output@.subrange(old(self).output@.len() as int, self.output@.len() as int);
             assert(self.output@ =~= old(self).output@ + chunk);
-            assert(chunk.len() >= 1 && chunk[0] == ref_code(opcode) as u8); // @C04 @C11
+            assert(chunk.len() >= 1 && chunk[0] == ref_code(opcode) as u8); // @C04 @C11 @C12 @C17
             assert(ref_pre(opcode, ga, r)); // @C02 @C01
             assert(self.rel(ref_step(opcode, ga, r))); // @C17 @C02
             assert(self.emit_post(old(self), r, opcode, opcode, ga, chunk));
@@ -1081,7 +1168,7 @@ pub fn get_random_module(&self, source: &mut GenerationSource) -> (r: Result<VfT
             assert(self.output@ =~= old(self).output@ + chunk);
             assert(chunk.subrange(1, chunk.len() as int) =~= gtext);
             assert(enc_ok(opcode, chunk)); // @C04
-            assert(chunk.len() >= 1 && chunk[0] == ref_code(opcode) as u8); // @C04 @C11
+            assert(chunk.len() >= 1 && chunk[0] == ref_code(opcode) as u8); // @C04 @C11 @C12 @C17
             assert(self.rel(ref_step(opcode, RefArg { idx: gidx }, r))); // @C17 @C02
             assert(self.emit_post(old(self), r, opcode, opcode, RefArg { idx: gidx }, chunk));
         }
@@ -1110,7 +1197,7 @@ pub fn get_random_module(&self, source: &mut GenerationSource) -> (r: Result<VfT
         proof {
             let chunk = self.output@.subrange(old(self).output@.len() as int, self.output@.len() as int);
             assert(self.output@ =~= old(self).output@ + chunk);
-            assert(chunk.len() >= 1 && chunk[0] == ref_code(opcode) as u8); // @C04 @C11
+            assert(chunk.len() >= 1 && chunk[0] == ref_code(opcode) as u8); // @C04 @C11 @C12 @C17
             assert(self.rel(ref_step(opcode, RefArg { idx: gidx }, r))); // @C17 @C02
             assert(self.emit_post(old(self), r, opcode, opcode, RefArg { idx: gidx }, chunk));
         }
@@ -1137,7 +1224,7 @@ pub fn get_random_module(&self, source: &mut GenerationSource) -> (r: Result<VfT
         proof {
             let chunk = self.output@.subrange(old(self).output@.len() as int, self.output@.len() as int);
             assert(self.output@ =~= old(self).output@ + chunk);
-            assert(chunk.len() >= 1 && chunk[0] == ref_code(opcode) as u8); // @C04 @C11
+            assert(chunk.len() >= 1 && chunk[0] == ref_code(opcode) as u8); // @C04 @C11 @C12 @C17
             assert(self.rel(ref_step(opcode, RefArg { idx: gidx }, r))); // @C17 @C02
             assert(self.emit_post(old(self), r, opcode, opcode, RefArg { idx: gidx }, chunk));
         }
@@ -1149,7 +1236,7 @@ pub fn get_random_module(&self, source: &mut GenerationSource) -> (r: Result<VfT
         proof {
             let chunk = self.output@.subrange(old(self).output@.len() as int, self.output@.len() as int);
             assert(self.output@ =~= old(self).output@ + chunk);
-            assert(chunk.len() >= 1 && chunk[0] == ref_code(opcode) as u8); // @C04 @C11
+            assert(chunk.len() >= 1 && chunk[0] == ref_code(opcode) as u8); // @C04 @C11 @C12 @C17
             assert(self.rel(ref_step(opcode, RefArg { idx: 0 }, r))); // @C17
             assert(self.emit_post(old(self), r, opcode, opcode, RefArg { idx: 0 }, chunk));
         }
@@ -1162,7 +1249,7 @@ pub fn get_random_module(&self, source: &mut GenerationSource) -> (r: Result<VfT
         proof {
             let chunk = self.output@.subrange(old(self).output@.len() as int, self.output@.len() as int);
             assert(self.output@ =~= old(self).output@ + chunk);
-            assert(chunk.len() >= 1 && chunk[0] == ref_code(opcode) as u8); // @C04 @C11
+            assert(chunk.len() >= 1 && chunk[0] == ref_code(opcode) as u8); // @C04 @C11 @C12 @C17
             assert(self.rel(ref_step(opcode, RefArg { idx: 0 }, r))); // @C17
             assert(self.emit_post(old(self), r, opcode, opcode, RefArg { idx: 0 }, chunk));
         }
@@ -1174,7 +1261,7 @@ pub fn get_random_module(&self, source: &mut GenerationSource) -> (r: Result<VfT
         proof {
             let chunk = self.output@.subrange(old(self).output@.len() as int, self.output@.len() as int);
             assert(self.output@ =~= old(self).output@ + chunk);
-            assert(chunk.len() >= 1 && chunk[0] == ref_code(opcode) as u8); // @C04 @C11
+            assert(chunk.len() >= 1 && chunk[0] == ref_code(opcode) as u8); // @C04 @C11 @C12 @C17
             assert(self.rel(ref_step(opcode, RefArg { idx: 0 }, r))); // @C17
             assert(self.emit_post(old(self), r, opcode, opcode, RefArg { idx: 0 }, chunk));
         }
@@ -1190,7 +1277,7 @@ pub fn get_random_module(&self, source: &mut GenerationSource) -> (r: Result<VfT
             assert(self.output@ =~= old(self).output@ + chunk);
             assert(chunk.subrange(1, chunk.len() as int) =~= gtext);
             assert(enc_ok(opcode, chunk)); // @C04
-            assert(chunk.len() >= 1 && chunk[0] == ref_code(opcode) as u8); // @C04 @C11
+            assert(chunk.len() >= 1 && chunk[0] == ref_code(opcode) as u8); // @C04 @C11 @C12 @C17
             assert(self.rel(ref_step(opcode, RefArg { idx: 0 }, r))); // @C17
             assert(self.emit_post(old(self), r, opcode, opcode, RefArg { idx: 0 }, chunk));
         }
@@ -1205,7 +1292,7 @@ pub fn get_random_module(&self, source: &mut GenerationSource) -> (r: Result<VfT
             assert(self.output@ =~= old(self).output@ + chunk);
             assert(chunk.subrange(1, chunk.len() as int) =~= gtext);
             assert(enc_ok(opcode, chunk)); // @C04
-            assert(chunk.len() >= 1 && chunk[0] == ref_code(opcode) as u8); // @C04 @C11
+            assert(chunk.len() >= 1 && chunk[0] == ref_code(opcode) as u8); // @C04 @C11 @C12 @C17
             assert(self.rel(ref_step(opcode, RefArg { idx: 0 }, r))); // @C17
             assert(self.emit_post(old(self), r, opcode, opcode, RefArg { idx: 0 }, chunk));
         }
@@ -1355,6 +1442,7 @@ pub fn get_random_module(&self, source: &mut GenerationSource) -> (r: Result<VfT
 //@contract
     requires
         !old(self).unsafe_mutations,
+        old(self).mutators_consistent(),
         old(self).min_opcodes < 0x1_0000_0000 && old(self).max_opcodes < 0x1_0000_0000,
     ensures
         res is Ok, // @C09
@@ -1377,7 +1465,7 @@ pub fn get_random_module(&self, source: &mut GenerationSource) -> (r: Result<VfT
         }
 //@loop 1
             invariant
-                !self.unsafe_mutations, self.same_config_but_proto(old(self)),
+                !self.unsafe_mutations, self.same_config_but_proto(old(self)), self.mutators_consistent(),
                 ver_num(self.state.version) >= 2 ==> self.state.proto_emitted, // @C05
                 self.rel(gr), // @C17 @C01 @C02 @C03
                 contig(gr), // @C02
@@ -2034,6 +2122,7 @@ pub fn get_random_module(&self, source: &mut GenerationSource) -> (r: Result<VfT
 //@contract
     requires
         !old(self).unsafe_mutations,
+        old(self).mutators_consistent(),
         old(self).min_opcodes < 0x1_0000_0000 && old(self).max_opcodes < 0x1_0000_0000,
     ensures
         res is Ok, // @C09
@@ -2051,6 +2140,7 @@ pub fn get_random_module(&self, source: &mut GenerationSource) -> (r: Result<VfT
 //@contract
     requires
         !old(self).unsafe_mutations,
+        old(self).mutators_consistent(),
         old(self).min_opcodes < 0x1_0000_0000 && old(self).max_opcodes < 0x1_0000_0000,
     ensures
         res is Ok, // @C09
